@@ -35,3 +35,10 @@ package zenodb
 //@   modifies *
 //@   capture pf Int = result 0 of call partitionFor
 //@   ensures iff: result == (pf == partition)
+
+// C15/C03: a stored row may be handed on as raw bytes (skipping the per-field mapping) only if the file's field list
+// equals the requested field list, in order (core.Fields.Equals); otherwise columns must go through rowMapper.
+//@ func (*fileStore).iterate
+//@   modifies *
+//@   capture sameLayout Bool = result 0 of call core.Fields).Equals
+//@   at call dyn:onRow assert raw_only_if_same_layout: len(callarg2) == 0 || sameLayout
